@@ -193,6 +193,14 @@ def _install_cov_rules():
                                     lambda k, v=v: z3.If(sp.K.is_kind(v, "VectorVariable"), z3.Select(DS, FNAME(ELEMV(v, k))),
                                                          COVERS(ELEME(v, k), DS)))
                 conj.append(allc(n))
+                from .seqtheory import seqs as _sq, _once as _o1
+                from .specfns import unfold as _unf
+
+                def pw(k, v=v):
+                    # request the coverage unfolding of the k-th element (emitted once its class is learned)
+                    if _o1(sp.ip, f"covelem:{v}:{DS}:{k}"):
+                        _unf(sp, "cov", ELEME(v, k), (DS,))
+                _sq(sp.ip).pointwise.append(pw)
             sp.ip.path.assume(COVERS(r, DS) == z3.And(*conj))
         return f
     for k in ("VectorSum", "LinearCombination", "L2Norm", "L1Norm", "VectorPowerSum", "VectorUnarySum", "QuadraticForm",
